@@ -40,7 +40,7 @@ type propC05 struct{ seqProp }
 
 func init() {
 	Register(propC05{seqProp{id: "C05",
-		rule: "cases: (a) single-database histories as C01-C03 with Close/Open inserted at seeded positions and transactions left open across Close; (b) 2-3 database directories in one process opened/closed in any order and overlapping in time, sharing the process-global sequence counter, with process boundaries (counter reset while everything is closed) between segments, including 'open a fresh database, write, then open an older, fuller one', and (every other such case, under a seeded concurrent schedule) 'open a database while a second client keeps overwriting a key of another open one, which is written again afterwards'; after every step every open database is read back (autocommit and open transactions) against its own reference model, which is carried across reopen; distinct = hash(ops, switch trace); non-trivial = a write was acknowledged after a reopen and a later reopen followed",
+		rule: "cases: (a) single-database histories as C01-C03 with Close/Open inserted at seeded positions (at some of them the configuration lists the same roots in another order) and transactions left open across Close; (b) 2-3 database directories in one process opened/closed in any order and overlapping in time, sharing the process-global sequence counter, with process boundaries (counter reset while everything is closed) between segments, including 'open a fresh database, write, then open an older, fuller one', and (every other such case, under a seeded concurrent schedule) 'open a database while a second client keeps overwriting a key of another open one, which is written again afterwards'; after every step every open database is read back (autocommit and open transactions) against its own reference model, which is carried across reopen; distinct = hash(ops, switch trace); non-trivial = a write was acknowledged after a reopen and a later reopen followed",
 		runs: [2]int{3000, 120000}}})
 }
 
@@ -90,6 +90,14 @@ func (p propC05) Gen(r *simrt.Rand, idx int, tier string) any {
 	}
 	if idx%2 == 0 {
 		c := genSeqCase(r, seqProfile{prop: "C05", steps: [2]int{15, 50}, keys: [2]int{2, 4}, maxTx: 4, txWeight: 50, ctlWeight: 8, reopen: 10, readback: "all"})
+		if idx%6 == 2 && len(c.World.Roots) > 1 {
+			// at some of the reopenings the configuration lists the same roots in another order
+			for i := range c.Ops {
+				if c.Ops[i].K == "reopen" && i%2 == 0 {
+					c.Ops[i].Pre = 1
+				}
+			}
+		}
 		if idx%10 == 4 {
 			// a key of a length nobody planned for (the inline client takes any string)
 			long := strings.Repeat("K", []int{65001, 70000, 100000}[r.Intn(3)])
